@@ -16,7 +16,8 @@ MARGIN = {"float64": 1e-10, "float32": 1e-4}
 
 
 def cond_full_row_rank(J: np.ndarray):
-    """Condition number of the NON-ZERO rows of J if they are linearly independent, else None.
+    """Condition number of the NON-ZERO rows of J if they are linearly independent (or, for a tall matrix with more rows
+    than columns, of its column space if the columns are linearly independent), else None.
 
     Exactly-zero rows are allowed: they make the rank deficient but not numerically ambiguous (the corresponding
     singular value is exactly 0, far below any rank tolerance); the zero matrix has rank 0 (cond 1)."""
@@ -24,9 +25,12 @@ def cond_full_row_rank(J: np.ndarray):
     m, n = nz.shape
     if m == 0:
         return 1.0
-    if m > n:
-        return None
     sv = np.linalg.svd(nz, compute_uv=False)
+    if m > n:
+        # tall: rank n < m is unambiguous when the n non-zero singular values are well separated from zero
+        if sv[n - 1] <= 0:
+            return None
+        return float(sv[0] / sv[n - 1])
     if sv[m - 1] <= 0:
         return None
     return float(sv[0] / sv[m - 1])
